@@ -13,6 +13,15 @@ CHECKS = {
     "C02": dict(ready=True, category="exploration", technique="runtime monitoring: conservation checker (offline, over recorded solver outputs) - plan jobs = assigned (+) unassigned as exact multiset partition",
         text="Conservation oracle of O1 over the same kind of recorded end-to-end runs, biased to multi-task jobs, reload markers, breaks and many routes: every plan job exactly once (all tasks, one tour, pickups first) or once in unassigned with a reason; tours name existing vehicle shifts, one tour per shift, every tour serves a job; break/reload stops matched injectively to the shift's own definitions.",
         note="Trusts O1's activity matching (job id, task type, location, tag); clustering/required breaks/recharge outside the workload.", design_ref="DESIGN.md §3 C02"),
+    "C07": dict(ready=True, category="fault_enumeration", technique="runtime monitoring with injected faults: counting Quota (public trait) fired at every enumerated poll index, solutions judged offline by O1, generations counted by a hyper-heuristic wrapper",
+        text="The interruption point is enumerated deterministically in logical time: a quota that turns true at its k-th poll, for every k up to the measured number of polls of a solve (all of them in thorough for N <= 6000; every k below a cap plus a stride in quick), x generation limits {1,2,7,50}; every run must return Ok within a bounded number of further polls with a solution O1 finds valid, and never more search rounds than configured. Fault enumeration is the right level because the property quantifies over crash points, which can be listed exhaustively per run.",
+        note="Poll positions of the multi-threaded solver are not code locations; O1 judges validity; time limits only sampled; generation limit 0 outside the property.", design_ref="DESIGN.md §3 C07"),
+    "C16": dict(ready=True, category="exploration", technique="runtime monitoring: reference-model monitor - generated matrix sets queried exhaustively per (profile, from, to, time class) against a spec written from the property text",
+        text="Generated asymmetric, pairwise-distinct, multi-profile, multi-timestamp matrix sets are fed to the real providers (core constructors, pragmatic reader incl. errorCodes/scale/location mapping, approximation, scientific) and every query (all actors x pairs x time classes before/at/between/after) is compared with an independent spec; inconsistent sets must be rejected.",
+        note="Whole-second non-negative times; undocumented acceptance cases are recorded as unspecified, not judged.", design_ref="DESIGN.md §3 C16"),
+    "C18": dict(ready=True, category="exploration", technique="runtime monitoring: invariant monitor on the slot-machine state after every update with a recording distribution sampler, telemetry-parsing monitor for DynamicSelective, reference window/CV model for MinVariation, range monitor for termination estimates",
+        text="Reward streams over 12 hostile classes (0, denormal ... 1e6) drive SlotMachine directly; after every update alpha/beta/v/mu invariants are asserted and every sampler call is checked by a recording sampler; DynamicSelective runs over scalar and N-objective contexts with own operators and its telemetry is parsed; termination estimates and the variation criterion are compared with an own model, unspecified boundary cases never decide.",
+        note="|fitness| <= 1e150; undocumented estimator details (Bessel correction, signed mean) unspecified.", design_ref="DESIGN.md §3 C18"),
     "C03": dict(ready=True, category="exploration", technique="runtime monitoring: replay oracle recomputing schedule/load/distance/statistics/cost from routing data and visiting order, compared with every reported number",
         text="O1 replays each tour of each recorded solution from (visiting order, first departure): stop arrival/departure within the one-unit output rounding, per-stop load and cumulative distance exactly, tour and overall statistics, cost = fixed + distance*cd + duration*ct, and that the reported place tag belongs to a place explaining the reported interval.",
         note="Integral matrices/durations; fractional profile scale widens the per-leg split tolerance; tours with transit stops/commute only per-stop consistency (not generated).", design_ref="DESIGN.md §3 C03"),
